@@ -8,6 +8,7 @@ Structural clauses decided (DESIGN.md §5 C08):
  R4 size cap: records above 64 KiB are refused (buffer cleared, error) before parsing
 """
 from ..engine import cfg as C
+from ..engine import paths as PA
 from ..engine import q as Q
 from ..engine import tables as TB
 from ..engine import terms as T
@@ -43,12 +44,34 @@ def _be16_of(t):
 
 
 def _is_needed(t):
-    """needed = saturating_add(be16(buffer[3], buffer[4]) as usize, 5)"""
+    """needed = 5 + be16(buffer[3], buffer[4]) in either operand order; widening through `as usize` / usize::from / into;
+    the two bytes may be read from the buffer directly or from a prefix slice of it that starts at 0"""
     t = T.strip(t)
-    if t[0] == "call" and (t[1].endswith("saturating_add") or t[1].endswith("checked_add")):
-        k = T.strip(t[2][1])
-        return k[0] == "const" and k[1] == 5 and _be16_of(t[2][0]) == [3, 4] and any(x[0] == "field" and x[2] == "buffer" for x in T.walk(t[2][0]))
+    parts = None
+    if t[0] == "call" and t[1].endswith(("saturating_add", "checked_add", "wrapping_add")) and len(t[2]) == 2:
+        parts = (t[2][0], t[2][1])
+    elif t[0] == "binop" and t[1].startswith("Add"):
+        parts = (t[2], t[3])
+    elif t[0] == "field" and T.strip(t[1])[0] == "binop" and T.strip(t[1])[1].startswith("Add"):
+        bt = T.strip(t[1])
+        parts = (bt[2], bt[3])
+    if parts is None:
+        return False
+    for (a, k) in (parts, parts[::-1]):
+        if T.fold_int(k) == 5 and _be16_of(a) == [3, 4] and any(x[0] == "field" and x[2] == "buffer" for x in T.walk(a)) and _from_offset_zero(a):
+            return True
     return False
+
+
+def _from_offset_zero(t):
+    """the indexed base is the buffer itself or buffer[..n] / buffer[0..n] (so index k is byte k of the record)"""
+    for x in T.walk(t):
+        if x[0] == "call" and x[1].endswith("::index") and len(x[2]) == 2:
+            r = T.strip(x[2][1])
+            if r[0] == "agg" and r[1] == "adt" and (r[2] or "").endswith(("ops::RangeFrom", "ops::Range")):
+                if T.fold_int(r[4][0]) != 0:
+                    return False
+    return True
 
 
 def rule_reader(ctx):
@@ -201,34 +224,39 @@ def rule_flow(ctx):
     iblk, it = ins[0]
     cs = Q.canon_conds(P, T.dom_conds(b, S, iblk))
     no_reader = any(c[0] == "variant" and T.has_call(c[1], "get_mut") and ((c[2] == "None" and c[3]) or (c[2] == "Some" and not c[3])) for c in cs)
-    gate = None
-    for c in cs:
-        if c[0] == "bool":
-            tt = c[1]
-            if tt[0] == "phi" or (tt[0] == "call" and tt[1].endswith("is_tls_traffic")):
-                alts = tt[1] if tt[0] == "phi" else (tt,)
-                kinds = set()
-                for a in alts:
-                    a = T.strip(a)
-                    if a[0] == "const" and a[1] is True:
-                        kinds.add("tracked")
-                    elif a[0] == "call" and a[1].endswith("is_tls_traffic") and T.has_call(a, "::payload"):
-                        kinds.add("header-check")
-                    else:
-                        kinds.add("other")
-                gate = (kinds, c[2])
-    ctx.check(no_reader and gate is not None and gate[1] is True and gate[0] <= {"tracked", "header-check"} and "header-check" in gate[0], "R3",
-              "process_tcp_packet:admission", "new reader only when none exists and the segment starts with a TLS handshake header",
-              "flow admission is not gated by is_tls_traffic(payload) for untracked flows (gate=%s, no-reader=%s)" % (gate, no_reader), ctx.loc(b, iblk))
-    # the `tracked` alternative is selected under contains_key == true
-    okt = False
-    for i, j, s in b.iter_stmts():
-        if s["k"] == "assign" and s["r"]["k"] == "use" and "k" in s["r"]["o"] and T.const_value(s["r"]["o"]["k"])[1] is True and b.local_name(s["p"]["l"]) == "is_tls":
-            for c in Q.canon_conds(P, T.dom_conds(b, S, i)):
-                if c[0] == "bool" and c[1][0] == "call" and c[1][1].endswith("contains_key") and c[2] is True:
-                    okt = True
-    ctx.check(okt, "R3", "process_tcp_packet:continuation", "continuation segments of a tracked flow are accepted without header check",
-              "`is_tls = true` is not conditional on the flow being tracked", ctx.loc(b))
+    # path rule: a reader is created for an untracked flow only after is_tls_traffic(payload) said yes.  Every entry -> insert path is
+    # examined; paths on which the flow was found tracked (contains_key true) and then not found (get_mut None) are infeasible.
+    trails, trunc = PA.enumerate_paths(b, 0, 4000, stop={iblk})
+    trails = [tr for tr in trails if tr[-1] == iblk]
+    badpath = None
+    for tr in trails:
+        pc = PA.path_conds(P, b, S, tr)
+        tracked = any(c[0] == "bool" and c[1][0] == "call" and c[1][1].endswith("contains_key") and c[2] is True for c in pc)
+        notfound = any(c[0] == "variant" and T.has_call(c[1], "get_mut") and ((c[2] == "None" and c[3]) or (c[2] == "Some" and not c[3])) for c in pc)
+        if tracked and notfound:
+            continue
+        checked = any(c[0] == "bool" and c[1][0] == "call" and c[1][1].endswith("is_tls_traffic") and T.has_call(c[1], "::payload") and c[2] is True for c in pc)
+        if not checked:
+            badpath = tr
+            break
+    ctx.check(no_reader and bool(trails) and not trunc and badpath is None, "R3", "process_tcp_packet:admission",
+              "new reader only when none exists and the segment starts with a TLS handshake header (%d paths to the insert examined)" % len(trails),
+              "a reader can be created for an untracked flow without is_tls_traffic(payload) having accepted the segment (no-reader=%s, offending path %s)" % (no_reader, badpath),
+              ctx.loc(b, iblk))
+    # continuation: a segment of a tracked flow is never turned away by the header check: every path on which contains_key is true and the
+    # function returns before add_bytes must not be decided by is_tls_traffic
+    okt = True
+    rtr, trunc2 = PA.enumerate_paths(b, 0, 6000)
+    for tr in rtr:
+        if ablk in tr:
+            continue
+        pc = PA.path_conds(P, b, S, tr)
+        tracked = any(c[0] == "bool" and c[1][0] == "call" and c[1][1].endswith("contains_key") and c[2] is True for c in pc)
+        turned = any(c[0] == "bool" and c[1][0] == "call" and c[1][1].endswith("is_tls_traffic") and c[2] is False for c in pc)
+        if tracked and turned:
+            okt = False
+    ctx.check(okt and not trunc2, "R3", "process_tcp_packet:continuation", "continuation segments of a tracked flow are accepted without header check",
+              "a segment of a tracked flow can be rejected because it does not start with a TLS handshake header (every continuation segment would be)", ctx.loc(b))
     # tracked flow reaches add_bytes: add_bytes post-dominates the get_mut==Some edge
     okreach = False
     for blk in sorted(b.reachable):
